@@ -146,7 +146,8 @@ def _namespace():
     if _NS is None:
         import typing
         from collections import abc
-        _NS = {"EB": EB, "E1": E1, "_Susp": _Susp, "abc": abc, "__name__": __name__}
+        import functools
+        _NS = {"wraps": functools.wraps, "EB": EB, "E1": E1, "_Susp": _Susp, "abc": abc, "__name__": __name__}
         for n in ("Generator", "Iterator", "Iterable", "AsyncGenerator", "AsyncIterator", "AsyncIterable",
                   "Coroutine", "Any", "Union"):
             _NS[n] = getattr(typing, n)
@@ -156,13 +157,24 @@ def _namespace():
 _UNIQ = [0]
 
 
-def define(kind, tree, hint_idx):
-    """-> (plain function, decorated function, source)"""
+WRAPPEE = {"sync": "def {n}(log: list) -> {h}:\n    return None\n",
+           "gen": "def {n}(log: list) -> {h}:\n    yield 0\n",
+           "coro": "async def {n}(log: list) -> {h}:\n    return 0\n",
+           "agen": "async def {n}(log: list) -> {h}:\n    yield 0\n"}
+WRAPPED = ["none", "sync", "gen", "agen", "coro"]
+
+
+def define(kind, tree, hint_idx, wr="none"):
+    """-> (plain function, decorated function, source).  wr != "none": the subject is a
+    functools.wraps closure (own kind = kind, body = tree) whose __wrapped__ is a callable of kind wr
+    with the same signature and annotations -- the shape of a third-party adapter decorator."""
     from beartype import beartype
     _UNIQ[0] += 1
     hint = HINTS[kind][hint_idx % len(HINTS[kind])]
     name = f"c08_{kind}_{os.getpid()}_{_UNIQ[0]}"
     src = render(kind, tree, name, hint)
+    if wr != "none":
+        src += WRAPPEE[wr].format(n=name + "_wrappee", h=hint) + f"{name} = wraps({name}_wrappee)({name})\n"
     ns1, ns2 = dict(_namespace()), dict(_namespace())
     code = compile(src, f"<{name}>", "exec", dont_inherit=True)     # no 'from __future__ import annotations'
     exec(code, ns1)
@@ -215,7 +227,10 @@ def run_ops(kind, fn, ops):
 
 def _run_ops(kind, fn, ops):
     log = []
-    obj = fn(log)
+    try:
+        obj = fn(log)
+    except BaseException as e:      # noqa  -- calling a generator / coroutine function runs nothing of it
+        return ["call:" + _exc_obs(e)], [tok(v) for v in log]
     obs = []
     for op in ops:
         if op == "del":
@@ -290,6 +305,7 @@ CONSTANTS
   FinMax = %(finmax)d
   PostA = %(post)s
   PostLen = %(postlen)d
+  WrappedSet = %(wrapped)s
 CHECK_DEADLOCK FALSE
 """
 
@@ -304,7 +320,7 @@ def make_cfg(d, name, kind, wrap, g, *, keep, emit, invs):
              pre=_set(g.get("pre", [])), premax=g.get("premax", 0), blk=_set(g.get("blk", [])),
              blkmax=g.get("blkmax", 0), hc=_set(g.get("hc", [])), hblk=_set(g.get("hblk", [])),
              hblkmax=g.get("hblkmax", 0), fin=_set(g.get("fin", [])), finmax=g.get("finmax", 0),
-             post=_set(g.get("post", [])), postlen=g.get("postlen", 0))
+             post=_set(g.get("post", [])), postlen=g.get("postlen", 0), wrapped=_set(g.get("wrapped", ["none"])))
     txt = CFG % p + "".join(f"INVARIANT {i}\n" for i in invs)
     return write_file(d, name + ".cfg", txt)
 
@@ -319,10 +335,10 @@ def kind_ops(kind, ops):
 # =========================================================================== R2 replay
 def _replay_group(job):
     """child: all rows of one body (one kind).  -> list of per-row results"""
-    kind, bidx, body, rows = job
+    kind, bidx, (body, wr), rows = job
     sys.unraisablehook = _quiet        # late finalisation of objects of excluded histories: not an observation
     tree = tree_of(body)
-    plain, dec, src = define(kind, tree, bidx)
+    plain, dec, src = define(kind, tree, bidx, wr)
     out = []
     insp = [(f.__name__, f(plain), f(dec)) for f in
             (inspect.isgeneratorfunction, inspect.isasyncgenfunction, inspect.iscoroutinefunction)]
@@ -330,7 +346,22 @@ def _replay_group(job):
         po, pl = run_ops(kind, plain, ops)
         do, dl = run_ops(kind, dec, ops)
         out.append((po, pl, do, dl))
-    return kind, bidx, insp, out
+    return kind, bidx, insp, out, lazy_probe(kind, dec)
+
+
+def lazy_probe(kind, dec):
+    """a wrong-typed argument: the call itself must not raise (nothing of a generator / coroutine
+    function runs at the call); -> (call observation, observation of the first step)."""
+    class _Arg:
+        def append(self, v):
+            pass
+    try:
+        obj = dec(_Arg())
+    except BaseException as e:      # noqa
+        return _exc_obs(e).split("|")[:2], None
+    first, _ = run_ops(kind, lambda log: obj, ["next"])
+    obj = None
+    return ["ok", ""], first[0].split("|")[:2]
 
 
 F7_KEY = {"gen": "throw(GeneratorExit)", "agen": "athrow(GeneratorExit)", "coro": "throw(GeneratorExit)"}
@@ -352,10 +383,16 @@ class Compare:
 
     def row(self, kind, body, hint_idx, row, real):
         rep = self.rep
-        _, ops, po, co, ex, plog, clog, excl, f7 = row
+        _, ops, po, co, ex, plog, clog, excl, f7, wr, lazycall = row
         rpo, rpl, rdo, rdl = real
         rep.count()
-        case = {"kind": kind, "body": body, "ops": ops, "hint": hint_idx, "origin": self.origin}
+        case = {"kind": kind, "body": body, "ops": ops, "hint": hint_idx, "wrapped": wr, "origin": self.origin}
+        if rdo and rdo[0].startswith("call:") and not (rpo and rpo[0].startswith("call:")):
+            got = rdo[0][5:]
+            rep.violation({"kind": kind, "op": "call", "wrapped": wr, "got": got.split("|")[:2]},
+                          f"calling the decorated {kind} function (shape: __wrapped__ = {wr}) raises {got[:200]}; "
+                          f"the specification (LazyCall) demands {lazycall}: nothing runs at the call; body={body}", case)
+            return
         # (1) the specification's account of CPython
         nchk = len(po) - 1 if excl else len(po)     # the excluded operation itself is not compared
         if len(rpo) != len(po) or any(not same(a, b) for a, b in zip(rpo[:nchk], po[:nchk])) or \
@@ -383,6 +420,8 @@ class Compare:
                               f"and re-raises); e.g. body={body} ops={ops[:i + 1]}", case)
             else:
                 k = {"kind": kind, "op": ops[i], "want": want.split("|")[:2], "got": d.split("|")[:2]}
+                if wr != "none":
+                    k["wrapped"] = wr
                 rep.violation(k, f"decorated {kind} differs from the undecorated one at operation {i + 1} "
                                  f"({ops[i]}) of {ops}: undecorated {rpo[i]}, required {want}, decorated {d}; "
                                  f"body={body}", case)
@@ -406,21 +445,33 @@ def replay_rows(rep, pool, kind, rows, origin, cmp=None):
     """rows: parsed JSON rows of one TLC run (one kind)."""
     groups = {}
     for r in rows:
-        groups.setdefault(json.dumps(r[0]), []).append(r)
+        groups.setdefault(json.dumps([r[0], r[9]]), []).append(r)
     jobs, keys = [], []
     for bidx, (bk, rs) in enumerate(sorted(groups.items())):
         jobs.append((kind, bidx, json.loads(bk), [r[1] for r in rs]))
         keys.append((bk, rs))
     cmp = cmp or Compare(rep, origin)
     res = pool.map(_replay_group, jobs, chunksize=max(1, len(jobs) // 64))
-    for (bk, rs), (k, bidx, insp, out) in zip(keys, res):
-        body = json.loads(bk)
+    for (bk, rs), (k, bidx, insp, out, lazy) in zip(keys, res):
+        body, wr = json.loads(bk)
+        shape = {} if wr == "none" else {"wrapped": wr}
         for name, a, b in insp:
             rep.count()
             if a != b:
-                rep.violation({"kind": kind, "inspect": name},
-                              f"inspect.{name}: undecorated {a}, decorated {b} ({kind} body={body})",
-                              {"kind": kind, "body": body, "ops": [], "hint": bidx})
+                rep.violation({"kind": kind, "inspect": name, **shape},
+                              f"inspect.{name}: undecorated {a}, decorated {b} ({kind} function, __wrapped__ = {wr}, "
+                              f"body={body})", {"kind": kind, "body": body, "ops": [], "hint": bidx, "wrapped": wr})
+        rep.count()
+        if lazy[0] != ["ok", ""]:
+            rep.violation({"kind": kind, "op": "call", "arg": "wrong type", "got": lazy[0], **shape},
+                          f"calling the decorated {kind} function (__wrapped__ = {wr}) with a wrong-typed argument raises "
+                          f"{lazy[0]} at the call; a {kind} function runs nothing at the call (the undecorated one "
+                          f"returns an object); body={body}",
+                          {"kind": kind, "body": body, "ops": ["next"], "hint": bidx, "wrapped": wr})
+        elif lazy[1] != ["raise", "BeartypeCallHintParamViolation"]:
+            rep.spec_drift(f"{kind} (__wrapped__ = {wr}) called with a wrong-typed argument: first step gives {lazy[1]}, "
+                           f"expected the parameter violation there")
+        rep.add("shape_" + wr)
         want = {"gen": "isgeneratorfunction", "agen": "isasyncgenfunction", "coro": "iscoroutinefunction"}[kind]
         if not all(a == (name == want) for name, a, _ in insp):
             cmp.machinery.append(f"rendering of {kind} body {body} is not a {kind} function: {insp}")
@@ -449,12 +500,19 @@ G_SEND = dict(pre=["RX", "YX", "LX", "Y1"], premax=3, blkmax=0,
 G_BASE = dict(pre=[], premax=0, blk=["RX"], blkmax=2, hc=["", "BaseException", "Exception"],
               hblk=["Y2", "LB", "R1", "RR"], hblkmax=1, fin=["LF"], finmax=1, post=["Y1"], postlen=1,
               ops=["next", "tEB", "tE1", "close"], maxops=3, postmax=1)
+# the decorated callable is a functools.wraps closure around a callable of another (or the same) kind
+G_WRAP = dict(pre=["RX", "YX", "LA", "R1", "RS", "XE"], premax=2, blkmax=0, wrapped=WRAPPED,
+              ops=["next", "send7", "tE1", "close"], maxops=2, postmax=1)
 G_MUT = dict(pre=[], premax=0, blk=["RX"], blkmax=1, hc=["", "E1", "GeneratorExit"],
              hblk=["Y2", "R1", "XE"], hblkmax=1, fin=["LF"], finmax=1, post=["Y1", "XE", "R1"], postlen=1,
              ops=["next", "send7", "tE1", "tSA", "tGE", "close"], maxops=3, postmax=1)
 
-MUTANTS = {"agen": ["merge_else", "send_after_throw", "no_aclose", "falsy_is_none", "narrow_base"], "gen": ["lose_return"],
-           "coro": ["no_check"]}
+MUTANTS = {"agen": ["merge_else", "send_after_throw", "no_aclose", "falsy_is_none", "narrow_base", "kind_from_wrappee"],
+           "gen": ["lose_return", "kind_from_wrappee"],
+           "coro": ["no_check", "kind_from_wrappee"]}
+# the invariant a mutant must violate, and the other-kind wrappee of the kind_from_wrappee runs
+MUTANT_INV = {"kind_from_wrappee": "KindPreserved"}
+OTHER_KIND = {"gen": "sync", "agen": "gen", "coro": "sync"}
 
 TRACE_CFG = """SPECIFICATION TSpec
 CONSTANTS
@@ -476,6 +534,7 @@ CONSTANTS
   FinMax = 0
   PostA = {}
   PostLen = 0
+  WrappedSet = {"none"}
 CONSTRAINT Reached
 POSTCONDITION Accepted
 CHECK_DEADLOCK FALSE
@@ -571,9 +630,9 @@ def rand_tree(rnd, depth, top=True):
 
 def _record_group(job):
     """child: one random body, several operation sequences; -> events of both objects."""
-    kind, bidx, tree, seqs = job
+    kind, bidx, tree, seqs, wr = job
     sys.unraisablehook = _quiet
-    plain, dec, src = define(kind, tree, bidx)
+    plain, dec, src = define(kind, tree, bidx, wr)
     out = []
     for ops in seqs:
         for is_dec, fn in ((False, plain), (True, dec)):
@@ -596,7 +655,7 @@ def trace_record(pool, d, kind, seed, nbodies, nseqs, seqlen):
             # mostly plain iteration, sprinkled with sends / throws / closes
             seqs.append([rnd.choice(alphabet) if rnd.random() < 0.55 else rnd.choice(["next", "next", "send7", "send0", "sendE"])
                          for _ in range(k)] + ["del"])
-        jobs.append((kind, b, tree, seqs))
+        jobs.append((kind, b, tree, seqs, rnd.choice(WRAPPED)))
     res = pool.map(_record_group, jobs, chunksize=max(1, len(jobs) // 64))
     path = os.path.join(d, f"trace_{kind}.ndjson")
     index = []          # event number (1-based) -> (body index, is_dec, ops)
@@ -605,7 +664,7 @@ def trace_record(pool, d, kind, seed, nbodies, nseqs, seqlen):
         def w(ev, where):
             fh.write(json.dumps(ev) + "\n")
             index.append(where)
-        for (k, b, tree, seqs), out in zip(jobs, res):
+        for (k, b, tree, seqs, wr), out in zip(jobs, res):
             code, hs = compile_tree(tree)
             w({"ev": "Body", "code": code, "h": hs}, (b, None, None))
             for is_dec, ops, obs, log in out:
@@ -643,7 +702,7 @@ def trace_judge(rep, rec, res_t):
         rep.violation(f7_key(kind),
                       f"{F7_KEY[kind]} into a decorated {kind} whose body catches GeneratorExit and returns "
                       f"(recorded trace, random body {jobs[b][2]}, ops {ops})",
-                      {"kind": kind, "tree": jobs[b][2], "ops": ops, "hint": b, "origin": "random trace"})
+                      {"kind": kind, "tree": jobs[b][2], "ops": ops, "hint": b, "wrapped": jobs[b][4], "origin": "random trace"})
     if res_t.violated:
         rej = [r for r in res_t.printed if isinstance(r, dict) and "rejected_at" in r]
         pos = rej[-1]["rejected_at"] if rej else None
@@ -659,7 +718,7 @@ def trace_judge(rep, rec, res_t):
         rep.violation({"kind": kind, "op": e.get("op", e["ev"]), "got": e.get("obs", "log").split("|")[:2], "via": "trace"},
                       f"recorded decorated {kind} is not a behaviour of the plain body's machine (GenProtoTrace.tla): "
                       f"event {pos} {ev}; body {tree} ops {ops}",
-                      {"kind": kind, "tree": tree, "ops": ops, "hint": b, "origin": "random trace"})
+                      {"kind": kind, "tree": tree, "ops": ops, "hint": b, "wrapped": jobs[b][4], "origin": "random trace"})
     else:
         rep.add("traces_validated_against_impl", ntr)
     rep.sample({"random_body": jobs[0][2], "kind": kind, "ops": jobs[0][3][0]})
@@ -706,10 +765,12 @@ def _design_jobs(d, tier):
         jobs.append((("exhibit", kind, wrap_of(kind)),
                      make_cfg(d, f"ex_{kind}", kind, wrap_of(kind), g, keep=True, emit=False, invs=["LockStep"]), {}))
         for m in MUTANTS[kind]:
-            gm = {"falsy_is_none": G_SEND, "narrow_base": G_BASE}.get(m)
+            gm = {"falsy_is_none": G_SEND, "narrow_base": G_BASE,
+                  "kind_from_wrappee": dict(G_WRAP, wrapped=["none", kind, OTHER_KIND[kind]])}.get(m)
             gm = dict(gm, ops=kind_ops(kind, gm["ops"])) if gm else g
             jobs.append((("mutant", kind, m),
-                         make_cfg(d, f"mut_{kind}_{m}", kind, m, gm, keep=True, emit=False, invs=["LockStepModF7"]), {}))
+                         make_cfg(d, f"mut_{kind}_{m}", kind, m, gm, keep=True, emit=False,
+                                  invs=[MUTANT_INV.get(m, "LockStepModF7")]), {}))
     g = dict(G_TRYQ, ops=G_TRYQ["ops"] + ["send0", "tSA"])
     jobs.append((("fixed", "agen", "fixed"),
                  make_cfg(d, "fixed_agen", "agen", "fixed", g, keep=False, emit=False, invs=["LockStep", "NoOrphan"]), {}))
@@ -749,7 +810,7 @@ def _design_judge(rep, jobs, results):
             rep.sample({"tlc_counterexample_of_LockStep": {"kind": kind, "body": st["body"], "ops": list(st["ops"]),
                                                            "plain": st["po"][-1], "wrapped": st["co"][-1]}})
         elif what == "mutant":
-            if res.violated != "LockStepModF7":
+            if res.violated != MUTANT_INV.get(wrap, "LockStepModF7"):
                 rep.machinery(f"spec mutant Wrap={wrap} ({kind}) is not rejected by TLC: the model is vacuous")
             rep.add("spec_mutants_killed")
         elif what == "fixed":
@@ -770,8 +831,9 @@ G_TRY2 = dict(G_TRYQ, hblk=["Y2", "LB", "RN", "RR", "XE", "XS"], hblkmax=2, post
 G_BASE4 = dict(G_BASE, blk=["RX", "YX"], hblk=G_BASE["hblk"] + ["XE"], ops=G_BASE["ops"] + ["send7", "tGE"], maxops=4)
 G_SEND4 = dict(G_SEND, pre=G_SEND["pre"] + ["R1"], ops=G_SEND["ops"] + ["close"], maxops=4)
 TABLES = {
-    "quick": [("straight", G_STRAIGHT), ("try", G_TRYQ), ("send", G_SEND), ("base", G_BASE)],
-    "thorough": [("straight", G_STRAIGHT4), ("try", G_TRY), ("try2", G_TRY2), ("send", G_SEND4), ("base", G_BASE4)],
+    "quick": [("straight", G_STRAIGHT), ("try", G_TRYQ), ("send", G_SEND), ("base", G_BASE), ("wrap", G_WRAP)],
+    "thorough": [("straight", G_STRAIGHT4), ("try", G_TRY), ("try2", G_TRY2), ("send", G_SEND4), ("base", G_BASE4),
+                 ("wrap", dict(G_WRAP, pre=G_WRAP["pre"] + ["Y1", "LX"], premax=3, ops=G_WRAP["ops"] + ["send0", "tGE"], maxops=3))],
 }
 
 
@@ -795,7 +857,7 @@ def _table_runs(rep, d, tier, pool):
             if res.violated:
                 model_broken.append((kind, res.violated, res.error_trace[-1][1] if res.error_trace else {}))
                 continue
-            rows = [r for r in res.printed if isinstance(r, list) and len(r) == 9]
+            rows = [r for r in res.printed if isinstance(r, list) and len(r) == 11]
             codes = [r for r in res.printed if isinstance(r, list) and len(r) == 3]
             res.printed = None
             res.output = ""
@@ -834,6 +896,9 @@ def _table_runs(rep, d, tier, pool):
         missing += [k for k in ("f7", "excl", "log") if not st[k] and not (k == "f7" and wrap_of(kind) == "fixed")]
         if missing and not model_broken:
             rep.machinery(f"vacuous case table for {kind}: never seen {missing}")
+    unseen = [w for w in WRAPPED if not rep.cov.get("shape_" + w)]
+    if unseen and not model_broken:
+        rep.machinery(f"vacuous case tables: callable shapes never decorated: {unseen}")
     rep.cov["table_stats"] = {k: {"f7_rows": v["f7"], "excluded_rows": v["excl"], "rows_with_side_effects": v["log"],
                                   "obs": v["obs"]} for k, v in stats.items()}
     return model_broken
@@ -853,7 +918,7 @@ def _hint_mismatch(rep):
         try:
             g = beartype(f)
             obs, _ = run_ops(kind, g, ["next", "del"])
-            ok = obs[0].startswith("raise|BeartypeCallHintReturnViolation")
+            ok = "BeartypeCallHintReturnViolation" in obs[0]
         except Exception as ex:      # noqa
             ok = type(ex).__module__.startswith("beartype.roar")
         if not ok:
@@ -918,7 +983,7 @@ def replay(rep, path):
     warnings.simplefilter("ignore")
     kind = case["kind"]
     tree = case["tree"] if "tree" in case else tree_of(case["body"])
-    plain, dec, src = define(kind, tree, case.get("hint", 0))
+    plain, dec, src = define(kind, tree, case.get("hint", 0), case.get("wrapped", "none"))
     print(src)
     ops = case["ops"] if case["ops"] and case["ops"][-1] == "del" else list(case["ops"]) + ["del"]
     po, pl = run_ops(kind, plain, ops)
